@@ -11,7 +11,7 @@ REPRS = ["", "btree", "brie", "btree_delete"]
 RULE = ("Two generated families. (a) dlgen programs (all attribute types, records, values incl. the type extremes INT_MIN/INT_MAX/"
         "UINT_MAX) run twice: as written and with every relation's representation qualifier drawn from {default, btree, brie, "
         "btree_delete}; all output relations compared as multisets. (b) eqrel programs: a binary relation declared `eqrel` fed by facts, "
-        "copy rules and (in half the cases) a recursive rule, then read by output rules in every binding pattern -- free/free, "
+        "copy rules, (in half the cases) a recursive rule and (in 40%) reader relations inside eq's own recursive stratum, then read by output rules in every binding pattern -- free/free, "
         "constant/free, free/constant, constant/constant, same variable twice, bound through a join on either or both columns, "
         "under negation, inside a count aggregate, joined with itself -- with probe values drawn from members, non-members and the "
         "domain extremes (the value -2^31 as an eqrel element is excluded: known finding F4, probed separately); every output "
@@ -82,6 +82,29 @@ def gen_eqrel(ch):
         P.rules.append(r)
     if ch.bool(0.3):
         P.rules.append(Rule(Atom("eq", [X, X]), [Atom("k", [X])]))
+    if ch.bool(0.4):
+        # readers INSIDE the recursive stratum of eq (eq depends on them): look-ups with either column bound while the closure grows
+        eq.recursive = True
+        grp = P.groups[0]
+        # bridges between the classes seeded by p, reachable from the probe values, so that classes merge while the readers run
+        mem = sorted({v for t in p.facts for v in t})
+        extra = {(ch.choice(mem), ch.choice(mem)) for _ in range(ch.int(1, 4))}
+        q.facts = sorted(set(q.facts) | extra)
+        k.facts = sorted(set(k.facts) | {(ch.choice(mem),)})
+        for nm, atom in (("m1", Atom("eq", [V, Y])), ("m2", Atom("eq", [Y, V]))):
+            if not ch.bool(0.85):
+                continue
+            r = Rel(nm, [NUMBER], "idb")
+            r.group = 0
+            r.recursive = True
+            P.add_rel(r)
+            grp.append(nm)
+            rr = Rule(Atom(nm, [Y]), [Atom("k", [V]), atom])
+            rr.tags.add("rec")
+            P.rules.append(rr)
+            back = Rule(Atom("eq", [X, Z]), [Atom(nm, [X]), Atom("q", [X, Z])])
+            back.tags.add("rec")
+            P.rules.append(back)
     members = sorted({v for t in p.facts for v in t}) or [0]
 
     def probe():
